@@ -13,7 +13,10 @@ C-order bytes) for arrays and exact bit patterns for scalars, so an equation bet
 missing dict key, different list length, different field names, state that is not a dict.
 -/
 import Flax.Proofs.SerialBytes
+import Flax.Proofs.SerialSizes
+import Flax.Proofs.MsgpackRobust
 import Flax.Proofs.SerialHeap
+import Flax.Proofs.SerialHeapValue
 
 namespace Flax.C10
 open Flax.Serial Flax.Msgpack Flax.SerialHeap
@@ -251,6 +254,34 @@ lengths below `2^32`, ext codes 0..127), of any nesting -/
 theorem msgpack_roundtrip (v : MVal) (h : v.WF) : unpack (pack v) = some v :=
   unpack_pack v h
 
+/-- **trailing garbage is rejected** (`msgpack.unpackb` raises `ExtraData`): an encoding followed by at
+least one more byte does not decode -/
+theorem msgpack_rejects_trailing (v : MVal) (h : v.WF) (g : Bytes) (hg : g ≠ []) :
+    unpack (pack v ++ g) = none := by
+  have := rt_val v ((pack v ++ g).length + 1) g h (by have := depth_le_val v; simp; omega)
+  simp only [unpack, this]
+  cases g with
+  | nil => exact absurd rfl hg
+  | cons a r => rfl
+
+/-- **truncated input is rejected** (`msgpack.unpackb`: "incomplete input"): no proper prefix of an
+encoding decodes -/
+theorem msgpack_rejects_truncated (v : MVal) (h : v.WF) (p q : Bytes) (hpq : pack v = p ++ q) (hq : q ≠ []) :
+    unpack p = none :=
+  unpack_truncated v h p q hpq hq
+
+/-- the decoder reads only a prefix of its input: bytes behind a decoded value are handed back
+untouched — on *arbitrary* input, not only on encodings -/
+theorem msgpack_decoder_reads_prefix (fuel : Nat) (bs x : Bytes) (w : MVal) (r : Bytes)
+    (h : unpackF fuel bs = some (w, r)) : unpackF fuel (bs ++ x) = some (w, r ++ x) :=
+  stable_unpackF fuel bs w r x h
+
+/-- the recursion budget is not observable: the decoder is a total function (it cannot loop), and
+once it succeeds, any larger budget gives the same result -/
+theorem msgpack_fuel_irrelevant (fuel d : Nat) (bs : Bytes) (r : MVal × Bytes)
+    (h : unpackF fuel bs = some r) : unpackF (fuel + d) bs = some r :=
+  unpackF_mono d fuel bs r h
+
 /-- different values have different encodings -/
 theorem msgpack_pack_injective (v w : MVal) (hv : v.WF) (hw : w.WF) (h : pack v = pack w) : v = w := by
   have h1 := unpack_pack v hv
@@ -301,6 +332,46 @@ theorem from_bytes_is_restore (T : Nat) (isz : String → Nat) (saved target : T
   have h1 := restore_serialize T isz (toStateDict saved) (noMarker_toStateDict saved hnm)
     (arraysOk_toStateDict isz saved hok) hp
   simp [fromBytes, toBytes, h1]
+
+/-- **`WFSizes` is enough**: a tree with distinct keys, no reserved key, fewer than `2^32` entries per
+container, keys / strings / bytes shorter than `2^32` bytes, arrays with
+`9·rank + len(dtype name) + nbytes + 32 < 2^32`, ints in `[-2^63, 2^64)` has a chunked state dict within
+msgpack's limits — at every threshold, whatever the item sizes. `WFSizes` is a decidable (`Bool`)
+predicate on the tree. -/
+theorem wf_tree_packable (T : Nat) (isz : String → Nat) (t : Tree) (h : WFSizes t = true) :
+    (chunkLeaves T isz (toStateDict t)).packable :=
+  wf_tree_packable' T isz t h
+
+/-- **Bytes round trip over a decidable tree predicate**: `from_bytes(t, to_bytes(t)) == t` for every
+`WFSizes` tree whose arrays satisfy NumPy's size invariant, for every chunk threshold `T` from 0 upward. -/
+theorem bytes_roundtrip_sizes (T : Nat) (isz : String → Nat) (t : Tree)
+    (h : WFSizes t = true) (hok : t.arraysOk isz) :
+    fromBytes t (toBytes T isz t) = .ok t := by
+  have h' := h
+  simp only [WFSizes, Bool.and_eq_true] at h'
+  exact bytes_roundtrip T isz t h'.1.1 h'.1.2 hok (wf_tree_packable T isz t h)
+
+/-- the same for restoring into any target: mismatch detection applies to states that went through bytes -/
+theorem from_bytes_is_restore_sizes (T : Nat) (isz : String → Nat) (saved target : Tree)
+    (h : WFSizes saved = true) (hok : saved.arraysOk isz) :
+    fromBytes target (toBytes T isz saved) = fromStateDict target (toStateDict saved) := by
+  have h' := h
+  simp only [WFSizes, Bool.and_eq_true] at h'
+  exact from_bytes_is_restore T isz saved target h'.1.2 hok (wf_tree_packable T isz saved h)
+
+/-- `from_bytes` rejects a saved state followed by trailing bytes instead of silently ignoring them -/
+theorem from_bytes_rejects_trailing (T : Nat) (isz : String → Nat) (saved target : Tree)
+    (h : WFSizes saved = true) (g : Bytes) (hg : g ≠ []) :
+    fromBytes target (toBytes T isz saved ++ g) = .error .badBytes := by
+  have hw := (ofM_toM _ (wf_tree_packable T isz saved h)).2
+  simp [fromBytes, toBytes, msgpackRestore, msgpackSerialize, msgpack_rejects_trailing _ hw g hg]
+
+/-- `from_bytes` rejects a truncated saved state -/
+theorem from_bytes_rejects_truncated (T : Nat) (isz : String → Nat) (saved target : Tree)
+    (h : WFSizes saved = true) (p q : Bytes) (hpq : toBytes T isz saved = p ++ q) (hq : q ≠ []) :
+    fromBytes target p = .error .badBytes := by
+  have hw := (ofM_toM _ (wf_tree_packable T isz saved h)).2
+  simp [fromBytes, msgpackRestore, msgpack_rejects_truncated _ hw p q (by simpa [toBytes, msgpackSerialize] using hpq) hq]
 
 /-- **The result does not depend on the chunk threshold** used when saving -/
 theorem result_independent_of_threshold (T₁ T₂ : Nat) (isz : String → Nat) (t : Tree)
@@ -364,6 +435,48 @@ theorem msgpack_serialize_frame (isJax : Leaf → Bool) (toNp : Leaf → Leaf) (
     rw [p3.2 a ha, hext]
     exact List.getElem?_append_left ha
 
+/-- **an in-place pass computes the pure function**: run on a state dict that has just been built out
+of fresh dict objects, with any recursion budget above the nesting depth, the heap a pass leaves
+behind reads back as `mapLeaves step` of the state dict — for every `step`, heap, and state dict with
+distinct keys. (`mapLeaves (chunkStep T isz) = chunkLeaves T isz`.) -/
+theorem in_place_pass_refines (step : Leaf → Option STree) (h₀ : Heap) (s : STree) (fuel rfuel : Nat)
+    (hw : s.wf = true) (hf : sdepth s < fuel) (hr : sdepth (mapLeaves step s) < rfuel) :
+    readBack rfuel (inPlace step fuel (allocSTree h₀ s).1 (allocSTree h₀ s).2).heap
+      (inPlace step fuel (allocSTree h₀ s).1 (allocSTree h₀ s).2).val = some (mapLeaves step s) :=
+  inPlace_fresh step h₀ s fuel hw hf rfuel hr
+
+/-- **`_chunk_array_leaves_in_place` is `chunkLeaves`** (heap pass = pure function) -/
+theorem chunk_pass_refines (T : Nat) (isz : String → Nat) (h₀ : Heap) (s : STree) (fuel rfuel : Nat)
+    (hw : s.wf = true) (hf : sdepth s < fuel) (hr : sdepth (chunkLeaves T isz s) < rfuel) :
+    readBack rfuel (inPlace (chunkStep T isz) fuel (allocSTree h₀ s).1 (allocSTree h₀ s).2).heap
+      (inPlace (chunkStep T isz) fuel (allocSTree h₀ s).1 (allocSTree h₀ s).2).val
+      = some (chunkLeaves T isz s) := by
+  rw [← mapLeaves_chunkStep] at hr ⊢
+  exact inPlace_fresh _ h₀ s fuel hw hf rfuel hr
+
+/-- **what `to_bytes` hands to `packb`**: after `_np_convert_in_place` and
+`_chunk_array_leaves_in_place` on the freshly built state dict, the heap value reads back as
+`chunkLeaves T` of the state dict with its JAX leaves converted — the value the pure model packs. -/
+theorem to_bytes_passes_refine (isJax : Leaf → Bool) (toNp : Leaf → Leaf) (T : Nat) (isz : String → Nat)
+    (h₀ : Heap) (t : Tree) (fuel rfuel : Nat) (hw : t.wf = true) (hf : sdepth (toStateDict t) < fuel)
+    (hr : sdepth (chunkLeaves T isz (mapLeaves (npStep isJax toNp) (toStateDict t))) < rfuel) :
+    readBack rfuel (toBytesH isJax toNp T isz fuel h₀ t).heap (toBytesH isJax toNp T isz fuel h₀ t).val
+      = some (chunkLeaves T isz (mapLeaves (npStep isJax toNp) (toStateDict t))) :=
+  passes_fresh isJax toNp T isz h₀ (toStateDict t) fuel (wf_toStateDict t hw) hf rfuel hr
+
+/-- with no JAX leaf the conversion pass is the identity: exactly `chunkLeaves T (to_state_dict t)` -/
+theorem to_bytes_passes_refine_numpy (toNp : Leaf → Leaf) (T : Nat) (isz : String → Nat)
+    (h₀ : Heap) (t : Tree) (fuel rfuel : Nat) (hw : t.wf = true) (hf : sdepth (toStateDict t) < fuel)
+    (hr : sdepth (chunkLeaves T isz (toStateDict t)) < rfuel) :
+    readBack rfuel (toBytesH (fun _ => false) toNp T isz fuel h₀ t).heap
+        (toBytesH (fun _ => false) toNp T isz fuel h₀ t).val
+      = some (chunkLeaves T isz (toStateDict t)) := by
+  have hid : mapLeaves (npStep (fun _ => false) toNp) (toStateDict t) = toStateDict t :=
+    mapLeaves_id _ (by intro v; simp [npStep]) _
+  have := to_bytes_passes_refine (fun _ => false) toNp T isz h₀ t fuel rfuel hw hf (by rw [hid]; exact hr)
+  rw [hid] at this
+  exact this
+
 /-- the flag matters (and the two theorems above are not vacuous): with `in_place=True` a caller's
 dict holding an oversize array is written to — its entry is replaced by the chunk dict -/
 theorem in_place_true_modifies_input :
@@ -383,6 +496,7 @@ def exT : Tree :=
 
 def exIsz : String → Nat := fun _ => 4
 
+example : WFSizes exT = true := by decide
 example : exT.wf = true := by decide
 example : exT.noMarker = true := by decide
 example : exT.noLegacyNames = true := by decide
@@ -402,7 +516,7 @@ example : (MVal.map [(.str [97], .arr [.int (-33), .f64 0, .ext 1 [1, 2, 3]]), (
 example : localCheck ["."] (.dict [("a", .leaf .none), ("b", .leaf .none)]) (.dict [("a", .leaf .none)])
     = some (.missingKeys ["."]) := by decide
 
-/-- the heap-level passes compute the same value as the pure `chunkLeaves` (instance: threshold 5,
+/-- instance of `to_bytes_passes_refine_numpy` together with the write set (threshold 5,
 the example tree's state dict; the array at `params/w` is replaced in its — freshly allocated — dict) -/
 example :
     readBack 10 (toBytesH (fun _ => false) id 5 exIsz 10 [] exT).heap
